@@ -196,6 +196,49 @@ impl Table {
     }
 }
 
+/// A row with structural sharing: snapshots taken in sequence share their unchanged rows.
+#[derive(Clone, PartialEq, Eq, Debug)]
+pub struct Row(pub std::sync::Arc<Vec<Cell>>);
+
+impl Row {
+    pub fn new(v: Vec<Cell>) -> Row {
+        Row(std::sync::Arc::new(v))
+    }
+}
+
+impl std::ops::Deref for Row {
+    type Target = Vec<Cell>;
+    fn deref(&self) -> &Vec<Cell> {
+        &self.0
+    }
+}
+
+impl std::ops::DerefMut for Row {
+    fn deref_mut(&mut self) -> &mut Vec<Cell> {
+        std::sync::Arc::make_mut(&mut self.0)
+    }
+}
+
+impl From<Vec<Cell>> for Row {
+    fn from(v: Vec<Cell>) -> Row {
+        Row::new(v)
+    }
+}
+
+fn cell_matches(c: &CharOpts, cell: &Cell) -> bool {
+    let flags_ok = ((cell.attr.flags & BOLD != 0) == c.bold)
+        && ((cell.attr.flags & ITALICS != 0) == c.italics)
+        && ((cell.attr.flags & UNDERSCORE != 0) == c.underscore)
+        && ((cell.attr.flags & STRIKE != 0) == c.strikethrough)
+        && ((cell.attr.flags & REVERSE != 0) == c.reverse)
+        && ((cell.attr.flags & BLINK != 0) == c.blink);
+    if !flags_ok {
+        return false;
+    }
+    let text_ok = if c.data.bytes().all(|b| b < 0x80) { c.data == cell.text } else { nfc(&c.data) == cell.text };
+    text_ok && Col::parse(&c.fg) == cell.attr.fg && Col::parse(&c.bg) == cell.attr.bg
+}
+
 #[derive(Clone, PartialEq, Eq, Hash, Debug)]
 pub struct Saved {
     pub x: u32,
@@ -213,7 +256,7 @@ pub struct Saved {
 pub struct Snap {
     pub lines: u32,
     pub columns: u32,
-    pub grid: Vec<Vec<Cell>>,
+    pub grid: Vec<Row>,
     pub cx: u32,
     pub cy: u32,
     pub cattr: Attr,
@@ -232,33 +275,51 @@ pub struct Snap {
 }
 
 pub fn snapshot(s: &Screen) -> Snap {
+    snapshot_with(s, None)
+}
+
+/// Snapshot sharing unchanged rows with `prev` (rows are compared against the live buffer
+/// without building them, so a long run of small steps costs memory only for what changed).
+pub fn snapshot_with(s: &Screen, prev: Option<&Snap>) -> Snap {
     let reverse = s.mode.contains(&DECSCNM);
     let dflt = Cell::blank(Attr::default_with(reverse));
-    let mut grid = Vec::with_capacity(s.lines as usize);
+    let prev = prev.filter(|p| p.columns == s.columns);
+    let mut blank_row: Option<Row> = None;
+    let mut grid: Vec<Row> = Vec::with_capacity(s.lines as usize);
     for y in 0..s.lines {
-        let mut row = Vec::with_capacity(s.columns as usize);
-        match s.buffer.get(&y) {
-            None => {
-                for _ in 0..s.columns {
-                    row.push(dflt.clone());
-                }
-            }
-            Some(line) => {
-                if line.is_empty() {
-                    for _ in 0..s.columns {
-                        row.push(dflt.clone());
-                    }
-                } else {
-                    for x in 0..s.columns {
-                        match line.get(&x) {
-                            None => row.push(dflt.clone()),
-                            Some(c) => row.push(Cell::of(c)),
-                        }
-                    }
+        let line = s.buffer.get(&y).filter(|l| !l.is_empty());
+        // reuse the previous row if it still describes this line
+        if let Some(p) = prev {
+            if let Some(prow) = p.grid.get(y as usize) {
+                let same = match line {
+                    None => prow.iter().all(|c| *c == dflt),
+                    Some(line) => (0..s.columns).all(|x| match line.get(&x) {
+                        None => prow[x as usize] == dflt,
+                        Some(c) => cell_matches(c, &prow[x as usize]),
+                    }),
+                };
+                if same {
+                    grid.push(prow.clone());
+                    continue;
                 }
             }
         }
-        grid.push(row);
+        match line {
+            None => {
+                let r = blank_row.get_or_insert_with(|| Row::new(vec![dflt.clone(); s.columns as usize]));
+                grid.push(r.clone());
+            }
+            Some(line) => {
+                let mut row = Vec::with_capacity(s.columns as usize);
+                for x in 0..s.columns {
+                    match line.get(&x) {
+                        None => row.push(dflt.clone()),
+                        Some(c) => row.push(Cell::of(c)),
+                    }
+                }
+                grid.push(Row::new(row));
+            }
+        }
     }
     Snap {
         lines: s.lines,
